@@ -477,6 +477,8 @@ class Gen:
             st = (sk, sw)
             vals = list(range(*((srange(sw)[0], srange(sw)[1] + 1) if sk == "s" else (0, 1 << sw))))
         s = self.nonconst(self.gen(st, d - 1)) if sk != "enum" else self.enum_leaf()
+        if not s.ports:
+            return None
         nkeys = r.randint(1, len(vals))
         keys = r.sample(vals, nkeys)
         has_default = nkeys < len(vals) or r.random() < 0.3
@@ -577,6 +579,10 @@ class Gen:
             sym, B = r.choice([("&", "BAnd"), ("|", "BOr"), ("^", "BXor")])
             a = self.gen(t, d - 1)
             b = self.gen(t, d - 1) if r.random() < 0.85 else const_node(t, r.randrange(2))
+            if not a.ports:
+                a, b = b, a         # a constant Bit on the left of & | ^ is not implemented upstream (Bit.__and__ reads other._val)
+            if not a.ports:
+                return None
             return Node(t, f"({a.py} {sym} {b.py})", f"(XBin {B} {a.cq} {b.cq})", [a, b], tag=f"{B[1:].lower()}:bit", key="bitwise:bit")
         if p == "inv":
             a = self.gen(t, d - 1)
